@@ -47,6 +47,7 @@ class Ctx:
         self.solver = None
         self.model = None  # z3 model known to satisfy the current path condition
         self.decided = {}  # ast id -> bool (facts decided on this path)
+        self.decided0 = {}  # same, keyed by the unsimplified term
         self.keep = []  # keep z3 asts alive (ids stay unique)
         self.n_solver = 0
         self.solver_s = 0.0
@@ -107,6 +108,16 @@ class Ctx:
     # -- decisions
     def decide(self, expr):
         """Decide a z3 Bool on this path; returns a Python bool."""
+        k0 = expr.get_id()
+        hit = self.decided0.get(k0)
+        if hit is not None:
+            return hit
+        r = self._decide(expr)
+        self.keep.append(expr)
+        self.decided0[k0] = r
+        return r
+
+    def _decide(self, expr):
         e = z3.simplify(expr)
         if z3.is_true(e):
             return True
@@ -283,7 +294,7 @@ class SymBool:
         return HASH_CONST
 
     def __repr__(self):
-        return f'<SymBool {self.e}>'
+        return '<SymBool>'
 
     __str__ = __repr__
 
@@ -454,14 +465,15 @@ class _SymNum:
     def __bool__(self):
         return _ctx.decide(self.e != 0)
 
+    # cheap on purpose: pretty-printing z3 terms is very slow and pjplan formats values into messages
     def __repr__(self):
-        return f'<{type(self).__name__} {self.e}>'
+        return f'<{type(self).__name__} {self.tag or "expr"}>'
 
     def __str__(self):
-        return f'<{self.e}>'
+        return f'<sym {self.tag or "expr"}>'
 
     def __format__(self, spec):
-        return f'<{self.e}>'
+        return f'<sym {self.tag or "expr"}>'
 
 
 class SymInt(_SymNum):
